@@ -3953,6 +3953,9 @@ class OptionalNode(ActionSinkNode):
                 self.finish_actions.append(action)
 
     def convert(self, current_error_handlers):
+        if self.sub_contents is None:
+            raise IllegalDFAStateError("Empty optional body", self)
+
         sub_dfa = self.sub_contents.convert(current_error_handlers)
         if sub_dfa.starting_state in sub_dfa.accepting_states:
             raise IllegalDFAStateError("Ambigious path in optional: should use optional or go to next", sub_dfa.starting_state)
@@ -4940,7 +4943,9 @@ class ParseCtx:
                 DTAG.SOURCE_LINE, lark_node_for_error.meta.line,
                 DTAG.SOURCE_COLUMN, lark_node_for_error.meta.column
         )
-        node = ProgramData.imbue(self._parse_stmt_seq(macro.parse_tree), DTAG.PARENT, macro)
+        node = self._parse_stmt_seq(macro.parse_tree)
+        if node is not None:
+            ProgramData.imbue(node, DTAG.PARENT, macro)
         del self.bound_argument_stack[-1]
         self.active_macro = self.active_macro.parent
         return node
@@ -5125,6 +5130,8 @@ class ParseCtx:
         next_node = None
         for stmt in reversed(stmts):
             node = self._parse_stmt(stmt)
+            if node is None:
+                continue # a call of a macro whose body is empty
             if self.active_macro and ProgramData.lookup(node, DTAG.MACRO_INSTANCE, recurse_upwards=False, recurse_downwards=False) is None:
                 node = ProgramData.imbue(node, DTAG.MACRO_INSTANCE, self.active_macro)
             if node.get_next() is not None:
